@@ -160,6 +160,11 @@ def catalogue(rng, real, link='bytes'):
     c.append(('truncated-request-stream', [('raw', sidb + bytes([6 << 2, 0, 0]))], [unk]))
     c.append(('error-frame-bad-code', [('raw', sidb + bytes([11 << 2, 0, 0, 0, 0, 9]))], [unk]))
     c.append(('ignore-flag-unknown-type', [('raw', sidb + bytes([(40 << 2) | 2, 0]) + J(3))], [unk]))
+    # more frames at once than any reasonable bound on an internal queue: a burst that is read from the socket before
+    # the receiver gets to run must not overflow anything
+    flood = rng.choice([300, 1100, 2500])
+    c.append(('flood-of-frames-for-unknown-stream',
+              [('frame', {'type': rng.choice(['CANCEL', 'REQUEST_N']), 'sid': unk, 'n': 1})] * flood, [unk]))
     if link in GLUE_LINKS:
         # websocket messages that are not binary ones: whatever the websocket library hands to the transport glue
         # for them (a str, a TEXT / PING message object) must be ignored like any other junk
@@ -663,7 +668,7 @@ def _run_case(gen, idx, rng, tier):
         k = rng.choice([1, 1, 2, 3, 5])
         stimuli = [rng.choice(cat) for _ in range(k)]
         if link in GLUE_LINKS and rng.random() < 0.5:
-            stimuli[rng.randrange(k)] = rng.choice(cat[-4:])
+            stimuli[rng.randrange(k)] = rng.choice(cat[-5:])
         desc = {'real': real, 'link': link, 'frag': rng.choice([None, 64]),
                 'spacing': rng.choice(['settle', 'b2b']), 'stimuli': [s[0] for s in stimuli], '_stimuli': stimuli}
         obs, world = vloop.run(_hostile(rng, desc))
